@@ -37,7 +37,9 @@ PID = "C05"
 LEVEL = "exploration"
 RULE = (
     "seeded generator of call histories (10-40 operations) on a generated discipline (1-3 inputs of size 1-3, "
-    "1-3 outputs, optional self-coupled variable, dense or sparse Jacobian, defaults for a subset of the inputs) "
+    "1-3 outputs, optional self-coupled variable, dense Jacobian or Jacobian blocks in any SciPy sparse container "
+    "(csr/csc/coo/lil/dia/bsr/dok, array and matrix flavours, one per discipline or one per block, square and "
+    "rectangular blocks), defaults for a subset of the inputs) "
     "under a cache policy (none / SimpleCache / MemoryFullCache shared or not / HDF5Cache with root or nested node; "
     "tolerance 0, 1e-9, 1e-2; real or colliding hash). Operations: execute, linearize(all), linearize after "
     "add_differentiated_* (growing subsets), partially defaulted inputs, calls with caller-owned arrays that are "
@@ -96,7 +98,8 @@ MIN_COUNTERS = {
               "tolerance_hits": 190, "answers_from_a_seen_input_within_tolerance": 270,
               "histories_with_forced_hash_collisions": 60, "calls_partial_inputs": 900,
               "differentiated_subset_growths": 450, "entry_listings_checked": 700, "set_cache_changes": 190,
-              "cache_clears": 100, "directed_cases": 64},
+              "cache_clears": 100, "directed_cases": 232, "square_nonsymmetric_sparse_blocks_served_from_cache": 600,
+              "rectangular_sparse_blocks_served_from_cache": 850},
     "thorough": {"outputs_compared": 90000, "jacobians_compared": 45000, "run_rule_evaluations": 35000,
                  "hits_simple": 8000, "hits_memory": 22000, "hits_memory_shared": 19000, "hits_hdf5": 29000,
                  "jacobian_hits_simple": 1000, "jacobian_hits_memory": 3800, "jacobian_hits_memory_shared": 3100,
@@ -106,7 +109,8 @@ MIN_COUNTERS = {
                  "tolerance_hits": 4200, "answers_from_a_seen_input_within_tolerance": 6200,
                  "histories_with_forced_hash_collisions": 1000, "calls_partial_inputs": 20000,
                  "differentiated_subset_growths": 9500, "entry_listings_checked": 15000, "set_cache_changes": 4000,
-                 "cache_clears": 2100, "directed_cases": 64},
+                 "cache_clears": 2100, "directed_cases": 232, "square_nonsymmetric_sparse_blocks_served_from_cache": 4700,
+                 "rectangular_sparse_blocks_served_from_cache": 14000},
 }
 SHARD_TIMEOUT = {"quick": 900, "thorough": 3600}
 
@@ -126,8 +130,11 @@ class StopHistory(Exception):
     """A violation was reported: the rest of the history would only report its consequences."""
 
 
+N_SHARDS = 16
+
+
 def shards(tier, seed):
-    n = 16
+    n = N_SHARDS
     per = {"quick": 40, "thorough": 900}[tier]
     return [{"seed": subseed(seed, PID, i), "n_hist": per,
              "budget_s": {"quick": 400, "thorough": 2400}[tier]} for i in range(n)]
@@ -187,9 +194,30 @@ def within(q, e, t, names):
     return True
 
 
+SPARSE_FORMATS = tuple(f"{fmt}_{flavour}" for fmt in ("csr", "csc", "coo", "lil", "dia", "bsr", "dok")
+                       for flavour in ("array", "matrix"))
+"""Every SciPy sparse container gemseo accepts as a Jacobian block (``sparse_classes`` = ``spmatrix`` and ``sparray``)."""
+
+# per container: blocks served by a cache and compared by value with the uncached twin (all policies / HDF5 only /
+# HDF5 and square non-symmetric, where mixing up rows and columns is silent), blocks of listed entries checked
+for _tier, _mins in (("quick", (100, 25, 10, 190)), ("thorough", (1450, 500, 90, 3200))):
+    for _fmt in SPARSE_FORMATS:
+        MIN_COUNTERS[_tier][f"jac_blocks_served_from_cache_{_fmt}"] = _mins[0]
+        MIN_COUNTERS[_tier][f"hdf5_jac_blocks_served_{_fmt}"] = _mins[1]
+        MIN_COUNTERS[_tier][f"hdf5_square_nonsymmetric_blocks_served_{_fmt}"] = _mins[2]
+        MIN_COUNTERS[_tier][f"stored_jac_blocks_checked_{_fmt}"] = _mins[3]
+
+
+def block_format(dc, o, i):
+    """The container of the Jacobian block d``o``/d``i`` of the harness discipline: "dense" or one of SPARSE_FORMATS."""
+    if not dc.get("sparse", False):
+        return "dense"
+    return dc.get("block_formats", {}).get(f"{o}|{i}", "csr_array")  # cases stored before the formats were generated
+
+
 def make_discipline(dc):
+    import scipy.sparse
     from gemseo.core.discipline import Discipline
-    from scipy.sparse import csr_array
 
     f = gf.from_description(dc["func"])
     in_names, out_names = _names(dc)
@@ -216,7 +244,8 @@ def make_discipline(dc):
                 jac = {o: {i: b for i, b in row.items() if i in input_names}
                        for o, row in jac.items() if o in output_names}
             if sparse:
-                jac = {o: {i: csr_array(b) for i, b in row.items()} for o, row in jac.items()}
+                jac = {o: {i: (b if block_format(dc, o, i) == "dense" else getattr(scipy.sparse, block_format(dc, o, i))(b))
+                           for i, b in row.items()} for o, row in jac.items()}
             self.jac = jac
 
     return HD(), f
@@ -575,6 +604,8 @@ class Runner:
             if C.n_jac == n_jac0:
                 rep.count("jacobian_served_without_recomputation")
                 rep.count(f"jacobian_hits_{self.kind}")
+                if self.kind != "none":
+                    self.count_served_blocks(req_out, req_in, jt)
             elif seen_before and self.kind != "none":
                 rep.count("jacobian_recomputed_at_seen_input")
         # ---- body runs
@@ -607,6 +638,23 @@ class Runner:
         self.last_key = k
         self.seen.setdefault(k, {n: value[n].copy() for n in self.in_names})
         self.after_call(step)
+
+    def count_served_blocks(self, req_out, req_in, jt):
+        """Per container: Jacobian blocks that were served by the cache (no recomputation) and compared by value."""
+        for o in req_out:
+            for i in req_in:
+                fmt = block_format(self.dc, o, i)
+                self.rep.count(f"jac_blocks_served_from_cache_{fmt}")
+                if self.kind == "hdf5":
+                    self.rep.count(f"hdf5_jac_blocks_served_{fmt}")
+                b = jt[o][i]
+                if fmt != "dense" and b.shape[0] == b.shape[1] >= 2 and not np.array_equal(b, b.T):
+                    self.rep.count("square_nonsymmetric_sparse_blocks_served_from_cache")
+                    if self.kind == "hdf5":
+                        self.rep.count("hdf5_square_nonsymmetric_sparse_blocks_served")
+                        self.rep.count(f"hdf5_square_nonsymmetric_blocks_served_{fmt}")
+                elif fmt != "dense" and b.shape[0] != b.shape[1]:
+                    self.rep.count("rectangular_sparse_blocks_served_from_cache")
 
     # ------------------------------------------------------------------ state monitors
     def after_call(self, step):
@@ -667,7 +715,13 @@ class Runner:
         cache = cache if cache is not None else self.C.cache
         if cache is None:
             return None
-        snap = self.snapshot(cache)
+        try:
+            snap = self.snapshot(cache)
+        except HarnessError:
+            raise
+        except Exception as e:  # listing a non-empty cache is a valid request: it must be served
+            self.violation(f"exception:{type(e).__name__}:entries", "the cache serves its entries", step=step,
+                           observed=f"{type(e).__name__}: {e}"[:400], expected="the stored entries")
         self.rep.count("entry_listings_checked")
         if len(snap) != len(cache) and self.kind in FULL:
             self.violation("entries-count", "get_all_entries yields len(cache) entries", step=step,
@@ -695,6 +749,7 @@ class Runner:
                 fj = fjs[0]
                 for o, row in jac.items():
                     for i, b in row.items():
+                        self.rep.count(f"stored_jac_blocks_checked_{block_format(self.dc, o, i)}")
                         if not any(same(b, fj_[o][i]) for fj_ in fjs):
                             self.violation("entry-untruthful", "stored Jacobian is that of the stored inputs",
                                            step=step, observed={"position": pos, "block": [o, i], "value": b},
@@ -875,9 +930,18 @@ def gen_disc(rng):
     for name, s in ins:
         if rng.random() < 0.45:
             defaults[name] = np.round(rng.uniform(-1.5, 1.5, s), 3).tolist()
-    return {"func": f.describe(), "ins": ins, "outs": outs, "self_coupled": selfc,
-            "sparse": bool(rng.random() < 0.3), "jac_requested_only": bool(rng.random() < 0.5),
-            "defaults": defaults}
+    dc = {"func": f.describe(), "ins": ins, "outs": outs, "self_coupled": selfc,
+          "sparse": bool(rng.random() < 0.4), "jac_requested_only": bool(rng.random() < 0.5),
+          "defaults": defaults}
+    if dc["sparse"]:
+        # one container for every block, or a container per block (dense blocks allowed among the sparse ones)
+        if rng.random() < 0.5:
+            one = SPARSE_FORMATS[int(rng.integers(len(SPARSE_FORMATS)))]
+            dc["block_formats"] = {f"{o}|{i}": one for o, _ in outs for i, _ in ins}
+        else:
+            choices = SPARSE_FORMATS + ("dense", "dense")
+            dc["block_formats"] = {f"{o}|{i}": choices[int(rng.integers(len(choices)))] for o, _ in outs for i, _ in ins}
+    return dc
 
 
 def gen_policy(rng, hid, epoch=0, allow_none=True):
@@ -1013,7 +1077,8 @@ def case_signature(case):
     dc, pol = case["disc"], case["policy"]
     t = pol["tol"]
     return (pol["type"], "0" if t == 0 else "small" if t < 1e-6 else "large", pol.get("collide", 0),
-            len(dc["ins"]), len(dc["outs"]), dc["self_coupled"], dc["sparse"], bool(dc["defaults"]),
+            len(dc["ins"]), len(dc["outs"]), dc["self_coupled"], dc["sparse"],
+            tuple(sorted(set(dc.get("block_formats", {}).values()))), bool(dc["defaults"]),
             "/" in pol.get("node", ""), tuple(sorted({op[0] for op in case["ops"]})))
 
 
@@ -1039,7 +1104,7 @@ def nontrivial(case):
 
 # =========================================================================== directed cases
 def directed_cases():
-    """Fixed histories for the corners named in DESIGN.md (run in shard 0)."""
+    """Fixed histories for the corners named in DESIGN.md (spread over the shards of every run)."""
     poly = {"kind": "poly", "coeffs": [[1.0, 2.0, 0.5], [0.0, 1.0, -1.0], [2.0, 0.0, 1.0]],
             "exps": [[2, 0, 0], [1, 1, 0], [0, 1, 1]]}
     dc = {"func": poly, "ins": [["x0", 2], ["x1", 1]], "outs": [["y0", 1], ["y1", 2]], "self_coupled": False,
@@ -1091,6 +1156,48 @@ def directed_cases():
                                     ["exec", 1, "full"], ["own_again", 1, "lin_all"], ["add_diff", ["s"], ["s"]],
                                     ["lin", 0, "full"], ["add_diff", ["x0"], ["y0"]], ["lin", 0, "full"], ["reopen"],
                                     ["lin", 1, "full"], ["clear"], ["exec", 0, "full"], ["exec", 0, "full"], ["entries"]]})
+    # D5: every sparse container, square non-symmetric (y0|x0: 2x2, y1|x1: 3x3) and rectangular blocks, every policy;
+    #     Jacobian served by the cache, by the re-opened cache and (end of shard) by a fresh interpreter
+    ins5, outs5 = [["x0", 2], ["x1", 3]], [["y0", 2], ["y1", 3]]
+    poly5 = {"kind": "poly",
+             "coeffs": [[1.0, 2.0, 0.0, 0.5, 0.0, 1.0], [0.0, 1.0, -1.0, 0.0, 2.0, 0.0], [2.0, 0.0, 1.0, 0.0, 0.0, -1.0],
+                        [0.0, 0.5, 0.0, 1.0, 1.0, 0.0], [1.0, 0.0, 0.0, -2.0, 0.0, 3.0]],
+             "exps": [[2, 0, 0, 0, 0], [1, 1, 0, 0, 0], [0, 1, 1, 0, 0], [0, 0, 1, 2, 0], [0, 0, 0, 1, 1], [1, 0, 0, 0, 2]]}
+    pool5 = [{"x0": [1.0, 2.0], "x1": [0.5, -1.0, 3.0]}, {"x0": [-1.5, 0.25], "x1": [2.0, 1.0, -0.5]}]
+    for fmt in SPARSE_FORMATS:
+        for kind in ("simple", "memory", "memory_shared", "hdf5"):
+            k += 1
+            p = {"type": kind, "tol": 0.0}
+            if kind == "hdf5":
+                p["file"] = f"c05_directed_{k % 2}.h5"
+                p["node"] = f"d{k}" if k % 2 else f"grp{k}/sub/node"
+            dc5 = {"func": poly5, "ins": ins5, "outs": outs5, "self_coupled": False, "sparse": True,
+                   "jac_requested_only": False, "defaults": {},
+                   "block_formats": {f"{o}|{i}": fmt for o, _ in outs5 for i, _ in ins5}}
+            out.append({"disc": dc5, "policy": p, "pool": pool5,
+                        "ops": [["lin_all", 0, "full"], ["lin_all", 0, "full"], ["exec", 1, "full"], ["lin_all", 1, "full"],
+                                ["add_diff", ["x0"], ["y0"]], ["lin", 0, "full"], ["reopen"], ["lin_all", 0, "full"],
+                                ["lin_all", 1, "full"], ["add_diff", ["x1"], ["y1"]], ["lin", 1, "full"], ["entries"]]})
+    # D6: square non-symmetric blocks only (a container that mixes up rows and columns cannot fail on a shape here)
+    for size in (2, 3):
+        ins6, outs6 = [["x0", size]], [["y0", size], ["y1", size]]
+        poly6 = {"kind": "poly", "coeffs": [[1.0, 2.0, 0.0, 0.5], [0.0, 1.0, -1.0, 0.0], [2.0, 0.0, 1.0, 3.0],
+                                            [0.0, 0.5, 2.0, 1.0], [1.0, 0.0, -2.0, 0.0], [0.0, 3.0, 0.0, 1.0]][:2 * size],
+                 "exps": [e[:size] for e in ([2, 0, 0], [1, 1, 0], [0, 2, 1], [1, 0, 1])]}
+        pool6 = [{"x0": [1.0, 2.0, -0.5][:size]}, {"x0": [-1.5, 0.25, 2.0][:size]}]
+        for fmt in SPARSE_FORMATS:
+            for kind in ("simple", "memory", "memory_shared", "hdf5"):
+                k += 1
+                p = {"type": kind, "tol": 0.0}
+                if kind == "hdf5":
+                    p["file"] = f"c05_directed_{k % 2}.h5"
+                    p["node"] = f"d{k}" if k % 2 else f"grp{k}/sub/node"
+                dc6 = {"func": poly6, "ins": ins6, "outs": outs6, "self_coupled": False, "sparse": True,
+                       "jac_requested_only": bool(k % 3 == 0), "defaults": {},
+                       "block_formats": {f"{o}|{i}": fmt for o, _ in outs6 for i, _ in ins6}}
+                out.append({"disc": dc6, "policy": p, "pool": pool6,
+                            "ops": [["lin_all", 0, "full"], ["lin_all", 0, "full"], ["lin_all", 1, "full"], ["reopen"],
+                                    ["lin_all", 1, "full"], ["add_diff", ["x0"], ["y1"]], ["lin", 0, "full"], ["entries"]]})
     return out
 
 
@@ -1226,7 +1333,10 @@ def run_history(case, rep, scratch, jobs=None):
     if jobs is not None and r.kind == "hdf5" and not r.violated:
         if len(r.C.cache) == 0:
             return  # nothing was stored under this node (listing an empty HDF5Cache raises, see the probes)
-        snap = r.snapshot(r.C.cache)
+        try:
+            snap = r.snapshot(r.C.cache)
+        except Exception:
+            return  # already judged by the final check_entries() of the history
         jobs.append({"file": os.path.join(scratch, r.pol["file"]), "node": r.pol["node"],
                      "lookup": not case["policy"].get("collide", 0), "expected": snap, "case": case})
 
@@ -1236,10 +1346,11 @@ def run_shard(spec, rep):
     scratch = spec["scratch"]
     jobs = []
     shard = int(spec.get("shard", 0))
-    if shard == 0:
-        for case in directed_cases():
+    for j, case in enumerate(directed_cases()):
+        if j % N_SHARDS == shard:  # spread over the shards; every run executes all of them
             run_history(case, rep, scratch, jobs)
             rep.count("directed_cases")
+    if shard == 0:
         outside_statement_probes(rep, scratch)
     for h in range(spec["n_hist"]):
         if rep.time_left() < 0:
@@ -1248,7 +1359,7 @@ def run_shard(spec, rep):
         case = gen_case(rng, 1000 * shard + h)
         run_history(case, rep, scratch, jobs)
         if h < 1:
-            rep.sample({"case": {"policy": case["policy"], "disc": {k: case["disc"][k] for k in ("ins", "outs", "defaults", "sparse")},
+            rep.sample({"case": {"policy": case["policy"], "disc": {k: case["disc"][k] for k in ("ins", "outs", "defaults", "sparse", "block_formats") if k in case["disc"]},
                                  "ops": case["ops"][:12]},
                         "note": "history judged call by call against an uncached twin; run log, invariant, entries, census"})
     cap = 40 if spec.get("tier") == "quick" else 400
